@@ -534,7 +534,18 @@ pub type EvalFn<C> = Arc<dyn Fn(&C) -> Verdict + Send + Sync>;
 pub fn eval_guarded<C>(eval: &EvalFn<C>, case: &C) -> Verdict {
     match catch(|| eval(case)) {
         Ok(v) => v,
+        // a panic whose location is in the harness's own sources (compiled with paths relative to
+        // the crate: "src/…") is harness trouble - exit 2 - and never reported against the library;
+        // locations in the library, in its dependencies or in std are failures of the case
+        Err(p) if panic_in_harness(&p) => Verdict::Harness(format!("the harness itself panicked: {}", p)),
         Err(p) => Verdict::Fail(p),
+    }
+}
+
+pub fn panic_in_harness(text: &str) -> bool {
+    match text.strip_prefix("panic at ") {
+        Some(rest) => rest.starts_with("src/") || rest.contains("/verif/harness/src/") || rest.contains("/alt-harness/src/"),
+        None => false,
     }
 }
 
